@@ -75,6 +75,13 @@ def run_sweep(source, tier, seed, binary):
 
 def cli_signature(pid, what, source, sc, events):
     meta = sc.get("meta", {}) or {}
+    if meta.get("kind") == "select":
+        if what == "processed_twice":
+            return "%s|%s|args=%s" % (source, what, meta["sc"]["argset"])
+        if meta["sc"].get("respect") and any(a["kind"] == "file" for a in meta["sc"]["args"]):
+            # one class: explicit paths with --respect-ignores consult only the ignore file of their own directory, else the cwd's
+            return "%s|%s|%s;explicit-file-with-respect-ignores" % (source, what, meta["sig"])
+        return "%s|%s|%s;ignore=%s" % (source, what, meta["sig"], meta.get("sig_ignore", ""))
     if meta.get("sig"):
         return "%s|%s|%s" % (source, what, meta["sig"])
     classes = "+".join(sorted(set(f.get("cls", "?") for f in meta.get("files", []))))
